@@ -131,6 +131,24 @@ def _stray_ok(fs, targets):
     return True
 
 
+class DiskFull:
+    """fault SEQUENCE: from step k on (unbounded symbolic k) the device is full - every write step fails with ENOSPC (files can still be
+    created, renamed and removed)"""
+
+    def __init__(self, k):
+        self.k, self.on, self.n, self.fired = k, False, 0, []
+
+    def __call__(self, fs, idx, name, args):
+        i = self.n
+        self.n += 1
+        if not self.on and decide(lambda: self.k <= i):
+            self.on = True
+        if self.on and name == "write":
+            self.fired.append((i, name) + tuple(args))
+            return ("fail", errno.ENOSPC)
+        return None
+
+
 def _crash_case(scn, mode, k, t, e, mt):
     news = _new_contents(scn, mt)
     _mt(mt)
@@ -139,7 +157,7 @@ def _crash_case(scn, mode, k, t, e, mt):
     try:
         olds = [fs.get(x) for x in targets]
         before = {k_: v for k_, v in fs.snapshot("/p").items()}
-        plan = FaultPlan(mode, k, t=t, err=e)
+        plan = FaultPlan(mode, k, t=t, err=e) if mode != 6 else DiskFull(k)
         fs.hook = plan
         exc, crashed = None, False
         try:
@@ -171,7 +189,7 @@ def _crash_case(scn, mode, k, t, e, mt):
                 problems.append(("unexpected new file", k_))
             if k_ in before and before[k_] != v and ("/p/" + k_) not in targets:
                 problems.append(("other file changed", k_))
-        if mode in (3, 4) and plan.fired and not crashed:
+        if mode in (3, 4, 6) and plan.fired and not crashed:
             # handled error: the cache temp file must be cleaned up; the call must not return normally with the target unchanged-but-claimed-written
             if exc is None:
                 for tgt, new in zip(targets, news):
@@ -317,6 +335,17 @@ def h_reader_api(scn: int, i: int, mt: bool):
     scn, mt = ci(scn, 0, NSCN), cb(mt)
     with nt():
         r = _reader_api_case(scn, i, mt)
+    reached()
+    assert r[0]
+
+
+def h_disk_full(scn: int, k: int, mt: bool):
+    """the device runs full at ANY step and stays full: whatever the writer then does (clean up, fall back), the target stays old or new"""
+    assert 0 <= scn <= NSCN and 0 <= k and part_ok(scn)
+    fresh_path()
+    scn, mt = ci(scn, 0, NSCN), cb(mt)
+    with nt():
+        r = _crash_case(scn, 6, k, 0, 0, mt)
     reached()
     assert r[0]
 
@@ -478,6 +507,7 @@ HARNESSES = [
     dict(name="h_fault", timeout=(600, 1500), parts=(14, 14)),
     dict(name="h_reader", timeout=(600, 1500), parts=(14, 14)),
     dict(name="h_reader_api", timeout=(600, 1500), parts=(14, 14)),
+    dict(name="h_disk_full", timeout=(600, 1500), parts=(14, 14)),
 ]
 
 
